@@ -552,6 +552,39 @@ class _Canon(ast.NodeTransformer):
         # S24 functional single-position update -> copy + store (reference function uses copy.copy)
         if any(t_.startswith(('copy.copy(', )) or '= copy.copy(' in t_ for t_ in self.stmts):
             from .lin import lin as _lin, Lin as _Lin
+
+            def _is_fupd(v_):
+                if isinstance(v_, ast.BinOp) and isinstance(v_.op, ast.Add) and isinstance(v_.left, ast.BinOp) and isinstance(v_.left.op, ast.Add):
+                    a2, m2, b2 = v_.left.left, v_.left.right, v_.right
+                    return isinstance(a2, ast.Subscript) and isinstance(b2, ast.Subscript) and isinstance(a2.slice, ast.Slice) \
+                        and isinstance(b2.slice, ast.Slice) and U(a2.value) == U(b2.value) and isinstance(m2, ast.List) and len(m2.elts) == 1
+                return False
+            # S24b: the functional update written in place as the argument of a call - f(X[:p] + [E] + X[p+1:], ...) in a test or
+            # a value whose other parts are pure - is first given the name the reference uses for its copy
+            ref_copy_names = [t_.split(' = ')[0] for t_ in self.stmts if ' = copy.copy(' in t_ and t_.split(' = ')[0].isidentifier()]
+            if ref_copy_names:
+                hoisted = []
+                for st in out:
+                    hosts = _once_first_hosts(st) if isinstance(st, (ast.If, ast.Assign, ast.Return, ast.Expr)) else []
+                    done_h = False
+                    for h in hosts:
+                        calls_ = [x for x in _walk_no_defer(h) if isinstance(x, ast.Call) and x.args and _is_fupd(x.args[0])]
+                        if len(calls_) != 1 or ref_copy_names[0] in {y.id for y in ast.walk(st) if isinstance(y, ast.Name)}:
+                            continue
+                        c_ = calls_[0]
+                        others_pure = all(_pure(a) for a in c_.args[1:]) and all(_pure(k.value) for k in c_.keywords) and _pure(c_.func) \
+                            and _pure(c_.args[0]) and all(_pure(x) for x in ast.iter_child_nodes(h) if x is not c_ and not any(y is c_ for y in ast.walk(x)))
+                        if not others_pure:
+                            continue
+                        tmp = ref_copy_names[0]
+                        pre_ = ast.Assign(targets=[ast.Name(id=tmp, ctx=ast.Store())], value=c_.args[0])
+                        c_.args[0] = ast.Name(id=tmp, ctx=ast.Load())
+                        hoisted.append(_relocate(pre_, st))
+                        self.steps.append('S24b functional update named ' + tmp)
+                        done_h = True
+                        break
+                    hoisted.append(st)
+                out = hoisted
             fu = []
             for st in out:
                 v = st.value if isinstance(st, ast.Assign) and len(st.targets) == 1 and isinstance(st.targets[0], ast.Name) else None
@@ -576,6 +609,35 @@ class _Canon(ast.NodeTransformer):
                 if not done_:
                     fu.append(st)
             out = fu
+        # S49 a generator bound to a name and consumed by the one loop that follows:
+        #     g = (E for T in IT if C); for x in g: BODY   ->   for T in IT: if C: x = E; BODY
+        # (the generator is lazy: E is evaluated per element right before BODY in both forms; break / continue / return in BODY mean
+        # the same for the fused loop)
+        q49 = []
+        skip49 = False
+        for idx49, st in enumerate(out):
+            if skip49:
+                skip49 = False
+                continue
+            nxt = out[idx49 + 1] if idx49 + 1 < len(out) else None
+            fn49 = getattr(self, 'fn', None)
+            if isinstance(st, ast.Assign) and len(st.targets) == 1 and isinstance(st.targets[0], ast.Name) and isinstance(st.value, ast.GeneratorExp) \
+                    and len(st.value.generators) == 1 and not st.value.generators[0].is_async and isinstance(nxt, ast.For) and not nxt.orelse \
+                    and isinstance(nxt.iter, ast.Name) and nxt.iter.id == st.targets[0].id and isinstance(nxt.target, ast.Name) \
+                    and st.targets[0].id not in self.ref_names and fn49 is not None \
+                    and sum(1 for y in ast.walk(fn49) if isinstance(y, ast.Name) and y.id == st.targets[0].id) == 2:
+                g = st.value.generators[0]
+                inner = [ast.Assign(targets=[ast.Name(id=nxt.target.id, ctx=ast.Store())], value=st.value.elt)] + list(nxt.body)
+                for cond in reversed(g.ifs):
+                    inner = [ast.If(test=cond, body=inner, orelse=[])]
+                fused = ast.For(target=g.target, iter=g.iter, body=inner, orelse=[])
+                _relocate(fused, nxt)
+                self.steps.append('S49 generator fused into its loop')
+                q49.append(self.visit(fused))
+                skip49 = True
+                continue
+            q49.append(st)
+        out = q49
         # S48 loop rotation:  while True: x = F(); if x is None: return R | break; BODY   (+ `return R` after the loop)
         #                  ->  x = F(); while x is not None: BODY; x = F()              (BODY has no `continue`)
         q48 = []
